@@ -683,8 +683,34 @@ def sorter_split(facts, res):
     srt = sorts[0]
     lam = [y for y in walk(srt) if y.get("k") == "LambdaExpr"]
     if len(lam) != 1:
-        res.violation(R5, tbf.rel(facts.path_of(srt)), ctor["qname"], "sort-key", srt["l"][1], "particles are sorted without an explicit comparator on the leaf index")
-        return
+        # default operator<: fine when the sorted elements are the (leaf index, original position) pairs themselves - std::pair compares the
+        # first member first; a sort of DERIVED keys is order-preserving only if the key keeps every bit of the leaf index above everything else
+        arr0 = strip(tbf.call_args(srt)[0])
+        names0 = [y.get("name") for y in walk(arr0) if y.get("k") in ("MemberExpr", "DeclRefExpr", "CXXDependentScopeMemberExpr") and y.get("name") not in ("begin", "end")]
+        an = names0[0] if names0 else None
+        bt0 = facts.ntext(body)
+        decl_t = ""
+        for fl in facts.cls(cls).get("fields", []):
+            if fl.get("name") == an:
+                decl_t = fl.get("t", "")
+        for v in walk(body):
+            if v.get("k") == "VarDecl" and v.get("name") == an:
+                decl_t = v.get("t", "")
+        if an and re.search(r"%s\[(\w+)\]\.first=\w+\.getIndexFromPosition\(\w+\[\1\]\)" % re.escape(an), bt0) and "pair<" in decl_t.replace(" ", ""):
+            res.instance(R5, "sort comparator", facts.loc(srt), "default operator< of std::pair on '%s': orders by the leaf index first" % an)
+            return
+        shifted = None
+        for x in walk(body):
+            if x.get("k") in ("BinaryOperator",) and x.get("op") == "=" and an and facts.ntext(kids(x)[0]).startswith(an + "["):
+                for y in walk(kids(x)[1]):
+                    if y.get("k") == "BinaryOperator" and y.get("op") in ("<<", "*") and ".first" in facts.ntext(kids(y)[0]):
+                        shifted = y
+        if shifted is not None:
+            res.violation(R5, tbf.rel(facts.path_of(srt)), ctor["qname"], "sort-key", shifted["l"][1],
+                          "particles are sorted by a derived key `%s`: a leaf index may use all 63 bits (Dim x (height-1) <= 63), so shifting / scaling it drops its high bits on deep trees "
+                          "and the order of the keys is no longer the order of the leaf indices" % facts.ntext(shifted)[:90])
+            return
+        raise AnalysisBroken("%s: particles are sorted without a comparator and the sorted sequence '%s' is not the (leaf index, position) pair array: re-confirm by reading" % (cls, an))
     ret = [r for r in walk(lam[0]) if r.get("k") == "ReturnStmt"]
     key = None
     if len(ret) == 1:
